@@ -36,4 +36,40 @@ theorem Spec_enter_comm (σ : Spec) (ns ns' : Ns) (sid sid' : Sid) (r r' : Room)
   all_goals simp [hc, hc']
 
 
+theorem Spec_enter_leave (σ : Spec) (ns : Ns) (sid : Sid) (r : Room) :
+    (σ.apply (.enter ns sid r)).apply (.leave ns sid r) = σ.apply (.leave ns sid r) := by
+  simp only [Spec.apply]
+  by_cases hc : (σ.conn ns sid).isSome
+  · simp only [hc, if_true]
+    congr 1
+    funext n r' x
+    by_cases h : n = ns ∧ r' = some r ∧ x = sid <;> simp [h]
+  · simp [hc]
+
+theorem Spec_leave_enter (σ : Spec) (ns : Ns) (sid : Sid) (r : Room)
+    (hc : (σ.conn ns sid).isSome = true) :
+    (σ.apply (.leave ns sid r)).apply (.enter ns sid r) = σ.apply (.enter ns sid r) := by
+  simp only [Spec.apply, hc, if_true]
+  congr 1
+  funext n r' x
+  by_cases h : n = ns ∧ r' = some r ∧ x = sid <;> simp [h]
+
+theorem Spec_close_idem (σ : Spec) (ns : Ns) (r : Room) :
+    (σ.apply (.closeRoom ns r)).apply (.closeRoom ns r) = σ.apply (.closeRoom ns r) := by
+  simp only [Spec.apply]
+  congr 1
+  funext n r' x
+  by_cases h : n = ns ∧ r' = some r <;> simp [h]
+
+theorem Spec_disconnect_idem (σ : Spec) (ns : Ns) (sid : Sid) :
+    (σ.apply (.disconnect ns sid)).apply (.disconnect ns sid) = σ.apply (.disconnect ns sid) := by
+  simp only [Spec.apply]
+  congr 1
+  · funext n r' x
+    by_cases h : n = ns ∧ x = sid <;> simp [h]
+  · funext n x
+    by_cases h : n = ns ∧ x = sid <;> simp [h]
+  · funext n e
+    simp
+
 end Sio.Rooms
